@@ -168,3 +168,15 @@ chk("C41", "role/delegation reference model vs pre-executed and in-block verifyT
 chk("C45", "authorization-soundness model over all 39 drivable mutating ontid methods through real signed transactions",
     "4 identities x 30-50 ops per history, every mutating method both accepted (right signer) and rejected (wrong signer classes: revoked key, key without auth right, other identity, controller/own key mismatch, empty, bad index, group proofs below threshold ...): success while the model says unauthorised, any change of a revoked id, a failed call changing state, and disagreement of getKeyState / getPublicKeysJson / getControllerJson / getDocumentJson with the model are violations. 12k / 400k evaluations.",
     "pre-fork V0 key storage and threshold-0 groups outside the domain")
+
+chk("C36", "race-amplified invariant monitor on the real ConnectController (barrier-held handshakes from the remote side) + Go race detector",
+    "Fresh controller per round (limits 3/2/2 or random small), 2-64 mock remotes on 1..n IPs playing the repo's own handshake behind a gate that holds the reply until every attempt of the phase has passed the pre-handshake check (no sleep inside the code under test); concurrent AcceptConnect / Connect / Close directly and through a real NetServer; at every quiescent point InboundsCount <= limit, per-IP live accepts <= limit, OutboundsCount <= limit, counts equal live successful calls; race reports in connect_controller are violations. 200 / 5000 rounds.",
+    "built with -race in both tiers")
+
+chk("C37", "structural-invariant monitor after every Update/Remove on the real routing table + concurrent variant under the race detector",
+    "After every operation: each id once across buckets, bucket sizes <= bucketsize, dedicated bucket i holds cpl==i and the last bucket cpl>=index (own cpl), Size() = sum = model set, callbacks fire exactly on model changes, Find agrees; NearestPeers: <=k, distinct, members, sorted by XOR distance (own comparator). Ids adversarially close to the local id, bucket sizes 1/2/20; 4 writers + 2 readers variant checked at quiescence. 320 / 6300 histories.",
+    "built with -race in both tiers")
+
+chk("C38", "wallet reference model vs live client and vs a fresh client reloaded from the saved file",
+    "Histories of NewAccount (6 key kinds), ImportAccount, DeleteAccount, SetDefaultAccount, SetLabel, ChangePassword (right / former / other / random old password), ChangeSigScheme through ClientImpl; after every op the live client equals the model and failed ops leave the file bytes unchanged; every 4-6 ops and at the end a fresh client on the file equals the model, each account opens with its current password to the same key (sign/verify probe) and refuses former, other and random passwords. 40 / 320 histories (scrypt-bound).",
+    "importing an address already in the wallet and empty new passwords are outside the domain (guarded by the CLI)")
